@@ -102,13 +102,13 @@ def block(rng, depth):
     if r < 0.48 and depth == 0:
         # indented code only at top level and fenced off by a thematic break, so that it cannot be read
         # as a continuation of a preceding list item
-        return ['***', '', '    CODE indented block stays as it is whatever the limit']
+        return ['___', '', '    CODE indented block stays as it is whatever the limit']
     if r < 0.52:
         return ['<div class="x">', 'HTML block content that is not re-broken either', '</div>']
     if r < 0.57:
         return ['| head one | head two |', '| --- | :-: |', '| cell with several words | x |']
     if r < 0.60:
-        return ['***']
+        return ['___']          # behind a '* ' marker '***' would read '* ***', one thematic break
     return paragraph(rng)
 
 
